@@ -90,7 +90,10 @@ func verifC06_close() {
 			vAssert(err == nil, "C06.result.nil-on-echo")
 		}
 	}
-	// closed for good
+	// closed for good, whatever Close returned, and nothing left running
+	vAssert(vNot(vIsOpen(c)), "C06.after.closed-for-good")
+	vGhostSettle()
+	vAssert(vGhostGoroutines() == 0, "C20.exit.no-goroutine-after-close")
 	_, _, e1 := c.Reader(vBG)
 	e2 := c.Write(vBG, MessageText, []byte("x"))
 	_, e3 := c.Writer(vBG, MessageText)
